@@ -45,6 +45,15 @@ def run(ctx):
             raise lib.Inconclusive("driver died: " + stress.get("_stdout_tail", ""))
         panel.classify(ctx, stress, KEYS)
         ctx.log("stress: %d rounds, %d violations" % (stress["evaluations"], len(stress.get("violations", []))))
+        # terminations overlapping upload rounds, exact accounting at rest (real goroutines; no schedule point exists between
+        # the unlock of usageUpdateQueueM in updateUsageQueueForOne and the end of the function)
+        term = lib.run_go(ctx, "server", "TestVerifC16TerminateStress", env={"VERIF_C16_TROUNDS": n(4, 30)}, tag="termstress",
+                          prefixes=("c15", "c16", "c17", "shared"))
+        if term.get("_died"):
+            raise lib.Inconclusive("driver died: " + term.get("_stdout_tail", ""))
+        panel.classify(ctx, term, KEYS)
+        ctx.log("termination stress: %d rounds, %s cycles, %d violations" % (term["evaluations"], term.get("stats", {}).get("cycles"),
+                                                                            len(term.get("violations", []))))
         # ---- model checking
         one = dict(nu=1, init=(11, 12), creds={1: 2})
         two = dict(nu=2, init=(11, 21), creds={1: 1, 2: 2})
@@ -76,13 +85,13 @@ def run(ctx):
         div, unstable = panel.check_drift(ctx, [res])
         st = res.get("stats", {})
         cov = {
-            "evaluations": res["evaluations"] + stress["evaluations"],
+            "evaluations": res["evaluations"] + stress["evaluations"] + term["evaluations"],
             "distinct_nontrivial": res["distinct_nontrivial"] + stress["distinct_nontrivial"],
             "rule": RULE, "samples": (res.get("samples", []) + stress.get("samples", []))[:5],
             "traces_validated_against_impl": len(allb), "exhaustive": True,
             "behaviours_replayed": {k: len(gens[k]) for k in gens}, "replay_steps": st.get("steps", 0),
             "behaviours_with_terminating_upload": nterm, "behaviours_ending_at_rest_after_traffic": nrest,
-            "stress": stress.get("stats", {}), "code_dev": panel.CODE_DEV,
+            "stress": stress.get("stats", {}), "termination_stress": term.get("stats", {}), "code_dev": panel.CODE_DEV,
             "negative_configs": {k: mcs[k].violated for k in mcs if k.startswith("neg_")},
             "diverged": div, "unstable": unstable,
             "checker_cmd": "tlc UserPanel.tla / UserPanelGen.tla + go test -run 'TestVerifPanelReplay|TestVerifC16Stress'",
